@@ -489,6 +489,8 @@ func (r *flowRun) recvLoop(cs *chanState, dir int, ch mpx.Channel, ctx async.Con
 		}
 		if drainOnCancel && st.Code == status.CodeCancelled {
 			// the channel context was cancelled by the close; pending messages are still readable
+			// (a careful user of the polling interface: arm the wait, then poll, then wait)
+			var wait <-chan struct{}
 			for {
 				data, ok, st2 := ch.ReceiveAsync(r.bg)
 				if st2.OK() && ok {
@@ -498,7 +500,12 @@ func (r *flowRun) recvLoop(cs *chanState, dir int, ch mpx.Channel, ctx async.Con
 				}
 				if st2.OK() && !ok {
 					// nothing pending but not ended: wait for more
-					simrt.Select(0, ch.ReceiveWait())
+					if wait == nil {
+						wait = ch.ReceiveWait()
+						continue
+					}
+					simrt.Select(0, wait)
+					wait = nil
 					continue
 				}
 				st = st2
